@@ -272,8 +272,9 @@ def run_property(mod, tier: str, seed: int, jobs: int = 16, only: Optional[str] 
         sums = [_worker((i, seed, xb)) for i in range(len(obs))]
 
     findings = load_findings()
-    os.makedirs(os.path.join(VERIF_DIR, "replays"), exist_ok=True)
-    os.makedirs(os.path.join(VERIF_DIR, "evidence"), exist_ok=True)
+    OUT = os.environ.get("VERIF_OUT", VERIF_DIR)  # scratch output dir for mutant self-tests
+    os.makedirs(os.path.join(OUT, "replays"), exist_ok=True)
+    os.makedirs(os.path.join(OUT, "evidence"), exist_ok=True)
     lines: List[str] = []
     n_viol = 0
     n_known = 0
@@ -318,7 +319,7 @@ def run_property(mod, tier: str, seed: int, jobs: int = 16, only: Optional[str] 
                        "what": rep.get("what"), "model": v["model"], "payload": jsonable(rep.get("payload")),
                        "decisions": v.get("decisions")}
                 fname = f"{prop}-{ob.name}-{label}-{len(replay_records)}.json".replace("/", "_").replace(" ", "_")
-                rpath = os.path.join(VERIF_DIR, "replays", fname)
+                rpath = os.path.join(OUT, "replays", fname)
                 with open(rpath, "w") as f:
                     json.dump(rec, f, indent=1)
                 replay_records.append(rec)
@@ -390,7 +391,7 @@ def run_property(mod, tier: str, seed: int, jobs: int = 16, only: Optional[str] 
         "wall_s": round(wall, 2),
         "violations": n_viol,
     }
-    with open(os.path.join(VERIF_DIR, "evidence", f"{prop}.json"), "w") as f:
+    with open(os.path.join(OUT, "evidence", f"{prop}.json"), "w") as f:
         json.dump(evidence, f, indent=1)
 
     for l in lines:
